@@ -90,6 +90,14 @@ CHECKS = {
             "of the server process == listener + connected clients, server.clients / fd_to_conn / poll registrations hold no departed client, "
             "one-shot serves exactly one connection.",
             "DESIGN.md C17", "Known finding D10 (ForkingServer.close cannot reach its children) on the modelled fork."),
+    "C18": ("exploration",
+            "deterministic simulation with fault injection: real UDP/TCP registry loops and clients on the in-memory kernel under a virtual clock, seeded register/unregister/query/clock histories interleaved with hostile datagrams and TCP clients; oracle = registry map model",
+            "Seeded search over histories (1-4 hosts, ports, aliases in random case, clock advances by fractions and multiples of the pruning "
+            "interval) x 26 kinds of hostile input (arbitrary bytes, every well-formed-but-wrong message shape, oversized datagrams; silent / "
+            "partial / resetting TCP clients) x UDP loss / duplication / reordering. The model is fed with the commands the server really processed; "
+            "every reply, the added/removed notification log (exactly once per membership change) and the final table must agree, and after every "
+            "hostile input the main loop must be alive and process a good query within a few virtual seconds.",
+            "DESIGN.md C18", ""),
     "C19": ("exploration",
             "deterministic simulation: conversations between the real implementation and an independently written reference codec/peer (both directions, plus real<->real with a tap); every frame re-encoded by the reference and compared byte for byte",
             "Seeded search over request/response exchanges (all 20 handlers' worth of operations, every value shape, packet sizes straddling the "
